@@ -42,6 +42,16 @@ C03_Identities == Held => PnlReconciles(P) /\ (Direct \/ Net(P) # 0)
 NeverRetradedFromFlat == ~(Direct /\ Held /\ P.bq > 0 /\ P.sq > 0 /\ Net(P) # 0 /\ n >= 3)
 C03_Mark == [][ last' = "mark" => /\ REq(Realised(P'), Realised(P)) /\ Net(P') = Net(P)
                                   /\ P'.bq = P.bq /\ P'.sq = P.sq /\ P'.paid = P.paid /\ P'.fees = P.fees ]_vars
+\* HOMOGENEITY, the lemma behind the fractional-quantity replays: quantities x 2 at prices / 2 (same money totals,
+\* same commissions) is a position with the same realised, unrealised and total P&L and the same market value, twice
+\* the net quantity and half the average price.  Checked wherever the current price is a whole number of mils when halved.
+Doubled(X) == [X EXCEPT !.bq = 2 * @, !.sq = 2 * @, !.px = @ \div 2]
+C03_Homogeneous ==
+  (Held /\ P.px % 2 = 0) =>
+    LET Q == Doubled(P) IN
+    /\ REq(Realised(Q), Realised(P)) /\ REq(Unrealised(Q), Unrealised(P)) /\ REq(Total(Q), Total(P))
+    /\ MarketValue(Q) = MarketValue(P) /\ Net(Q) = 2 * Net(P)
+    /\ REq(RMul(AvgPrice(Q), RInt(2)), AvgPrice(P))
 \* vacuity probes (each must be REFUTED by a run that looks for it)
 NeverFlipped == ~(Held /\ P.bq > 0 /\ P.sq > 0 /\ Net(P) < 0)
 NeverReopened == ~(Held /\ n >= 3 /\ P.bq + P.sq <= 3 /\ n > P.bq + P.sq)
